@@ -10,6 +10,10 @@
 (*   pd    : the same pipeline for pilot descriptions                      *)
 (*   slots : raw -> Build -> ToNew -> ToOld   and   Build -> ToOld         *)
 (*   func  : raw -> Encode -> Decode -> Call                               *)
+(*   xfunc : raw -> Encode -> Decode (other interpreter) -> Call            *)
+(*   tdseq : one description object: a sequence of verify / submit and of   *)
+(*           changes through attributes, items, update(), in-place          *)
+(*           mutation, then a final verify / submit                         *)
 (*   fseq  : raw -> EncodeAll -> DecodeAll -> CallAll  (short-lived        *)
 (*           callables encoded one after the other, decoded afterwards)    *)
 (* Every initial state is one input; TLC enumerates the inputs and prints  *)
@@ -27,6 +31,8 @@ CONSTANTS Kinds,      \* subset of {"td", "pd", "slots", "func", "fseq"}: what I
           SlotFams,   \* families of slot lists, see SlotInputs
           Funcs, ArgIds, KwIds, Apis,    \* catalogue of function payloads
           ShortFuncs, SeqLens,           \* short-lived callables, lengths of sequences
+          XFuncs, XWheres, XArgIds,      \* payloads for another interpreter
+          SeqBases, SeqOpIds, OpLens,    \* description sequences: start, steps, lengths
           Emit        \* print every input (TRUE for the enumeration run)
 
 VARIABLES kind, phase, inp, val, keep
@@ -86,7 +92,19 @@ Init ==
      \/ /\ "fseq" \in Kinds /\ kind = "fseq"
         /\ inp \in FSeqCases
         /\ Out("fseq", inp)
-  /\ val = inp /\ keep = inp
+     \/ /\ "xfunc" \in Kinds /\ kind = "xfunc"
+        /\ inp \in [f : XFuncs, w : XWheres, a : XArgIds]
+        /\ Out("xfunc", inp)
+     \/ /\ "tdseq" \in Kinds /\ kind = "tdseq"
+        /\ \E b \in SeqBases, fin \in {"verify", "submit"} :
+             \E os \in UNION {[1 .. n -> SeqOpIds] : n \in OpLens} :
+               inp = [base |-> Apply(Default, b), ops |-> os \o <<fin>>]
+        /\ Out("tdseq", [base |-> Diff(inp.base, Default),
+                          ops  |-> [i \in 1 .. Len(inp.ops) |->
+                                     [op |-> inp.ops[i], how |-> OpHow(inp.ops[i]),
+                                      set |-> OpSet(inp.ops[i])]]])
+  /\ val = (IF kind = "tdseq" THEN [d |-> inp.base, mark |-> FALSE, ok |-> FALSE, i |-> 1] ELSE inp)
+  /\ keep = (IF kind = "tdseq" THEN inp.base ELSE inp)
 
 (* ---- task descriptions --------------------------------------------------- *)
 TDRoundTrip ==
@@ -153,18 +171,34 @@ FsDecode == /\ kind = "fseq" /\ phase = "encoded"
 FsCall   == /\ kind = "fseq" /\ phase = "decoded"
             /\ phase' = "called" /\ UNCHANGED <<kind, inp, val, keep>>
 
+XfEncode == /\ kind = "xfunc" /\ phase = "raw"
+            /\ phase' = "encoded" /\ val' = XEncode(val) /\ UNCHANGED <<kind, inp, keep>>
+XfDecode == /\ kind = "xfunc" /\ phase = "encoded"
+            /\ phase' = "called" /\ val' = XDecode(val, "remote") /\ UNCHANGED <<kind, inp, keep>>
+
+\* one step of a sequence; keep = the content the last verify / submit saw
+SqStep ==
+  /\ kind = "tdseq" /\ phase \in {"raw", "seq"} /\ val.i <= Len(inp.ops)
+  /\ LET o == inp.ops[val.i]
+         s == SeqApply([d |-> val.d, mark |-> val.mark, ok |-> val.ok], o) IN
+     /\ val' = [d |-> s.d, mark |-> s.mark, ok |-> s.ok, i |-> val.i + 1]
+     /\ keep' = IF IsVerifyOp(o) THEN val.d ELSE keep
+     /\ phase' = IF val.i < Len(inp.ops) THEN "seq" ELSE IF s.ok THEN "seqdone" ELSE "seqrej"
+  /\ UNCHANGED <<kind, inp>>
+
 Next == \/ TDRoundTrip \/ TDVerify \/ TDVerifyAgain
         \/ PDRoundTrip \/ PDVerifyAct
         \/ SlBuild \/ SlToNew \/ SlToOld
         \/ FnEncode \/ FnDecode \/ FnCall
         \/ FsEncode \/ FsDecode \/ FsCall
+        \/ XfEncode \/ XfDecode \/ SqStep
 
 Spec == Init /\ [][Next]_vars
 
 (* ---- properties ---------------------------------------------------------- *)
-TypeOK == /\ kind \in {"td", "pd", "slots", "func", "fseq"}
+TypeOK == /\ kind \in {"td", "pd", "slots", "func", "fseq", "xfunc", "tdseq"}
           /\ phase \in {"raw", "raw_rt", "verified", "verified2", "rejected", "rejected2", "back",
-                        "built", "new", "old", "oldd", "encoded", "decoded", "called"}
+                        "built", "new", "old", "oldd", "seq", "seqdone", "seqrej", "encoded", "decoded", "called"}
           /\ kind = "td" => DOMAIN val = Attrs /\ DOMAIN inp = Attrs
           /\ kind = "pd" => DOMAIN val = PDAttrs
 
@@ -191,6 +225,14 @@ InvSlotsFormat == kind = "slots" =>
                     /\ phase \in {"old", "oldd"} => AllOld(val)
 \* Decode(Encode(f, a, k))(...) = f(a, k): identity oracle only
 InvFuncSame == kind = "func" /\ phase = "called" => val = Oracle(inp)
+\* ... also in an interpreter which does not know the application script
+InvRemoteSame == kind = "xfunc" /\ phase = "called" => val = XOracle(inp)
+\* verify is a function of the current content, with no memory: after the last
+\* verify / submit of any sequence the description is normalised, or refused
+\* because the content the call saw misses what its mode requires
+InvSeqNormal == kind = "tdseq" /\ phase = "seqdone" => Normal(val.d) /\ ~MustReject(keep)
+InvSeqRules  == kind = "tdseq" /\ phase = "seqrej"  => MustReject(keep)
+InvSeqAlias  == kind = "tdseq" /\ phase = "seqdone" => AliasKeepsOp(keep, val.d) /\ KeepsRest(keep, val.d)
 \* callables encoded one after the other each decode to themselves
 InvSeqSame  == kind = "fseq" /\ phase = "called" => val = SeqOracle(inp)
 =============================================================================
